@@ -28,6 +28,8 @@ func c14Scenarios() []srvScenarioDef {
 		{Name: "C14a archive || new device + its first report", Init: stdInit, Threads: [][]string{{"archive"}, {"auth:3:kC:1000:G1", "rep:3:kC:100:500"}}, FSPoints: true, StateOnly: true},
 		{Name: "C14b archive || registration + first device + first report", Init: []string{"now:100"}, Threads: [][]string{{"archive"}, reg}, FSPoints: true, StateOnly: true},
 		{Name: "C14c archive || rotation", Init: append(append([]string{}, stdInit...), "rep:1:kA:100:500"), Threads: [][]string{{"archive"}, {"rot"}}, FSPoints: true, StateOnly: true},
+		{Name: "C14e archive || the same registration submitted again", Init: append(append([]string{}, stdInit...), "rep:1:kA:100:500"), Threads: [][]string{{"archive"}, {"reg:G1:temp"}}, FSPoints: true, StateOnly: true},
+		{Name: "C14f archive || report burst of two devices", Init: stdInit, Threads: [][]string{{"archive"}, {"rep:1:kA:100:500", "rep:2:kB:100:700", "rep:1:kA:101:500"}}, FSPoints: true, StateOnly: true},
 		{Name: "C14d archive || conflicting authorization of a device with reports", Init: append(append([]string{}, stdInit...), "rep:1:kA:100:500"), Threads: [][]string{{"archive"}, {"auth:1:kX:1000:G1"}}, FSPoints: true, StateOnly: true},
 	}
 }
